@@ -577,7 +577,7 @@ theorem C17_license (c : Doc) (path : Str) (fp : Para)
 def convF (p : Para) : Lossy.FilesParagraph where
   files := Lossy.deserializeFileList ((p.get kFiles).getD [])
   license := License.ofValue ((p.get kLicense).getD [])
-  copyright := splitOn '\n' ((p.get kCopyright).getD [])
+  copyright := Lossy.deserializeCopyrights ((p.get kCopyright).getD [])
   comment := p.get kComment
 
 /-- what `LicenseParagraph::from_paragraph` builds when it succeeds -/
